@@ -482,6 +482,8 @@ def stage_matrix(ctx: Ctx, progs):
     hosts = [('match x:\n    case 0: pass\n', lambda r: r.body[0].cases[0], 'pattern', 'pattern'), ('f(1)\n', lambda r: r.body[0].value, 'args', '_arglikes'),
              ('x = [0]\n', lambda r: r.body[0].value, 'elts', None), ('with z: pass\n', lambda r: r.body[0], 'items', '_withitems'), ('import z\n', lambda r: r.body[0], 'names', '_Import_names')]
     for smode, src in ops[:len(OPERANDS)]:
+        import unicodedata
+        report = (lambda sig, what, rec_: ctx.violation(sig + '|nfkc-identifier', what, rec_)) if unicodedata.normalize('NFKC', src) != src else ctx.violation
         for hsrc, pick, field, tmode in hosts:
             if tmode is None:
                 continue
